@@ -62,7 +62,7 @@ def _gatestr_factory(ctx):
 def _replay_schedule(hist, pool, maxcache, gated_paths):
     """in a pristine child: configuration events, then threads under the scheduler"""
     warnings.simplefilter('ignore')
-    glom.core.Path._MAX_CACHE = maxcache
+    B.set_max_cache(maxcache)
     ctx = B.Ctx()
     builder = B.Builder(ctx, _gatestr_factory(ctx) if gated_paths else None)
     nprocs = max([ev['p'] for ev in hist if 'p' in ev] or [0])
@@ -89,12 +89,14 @@ def _replay_schedule(hist, pool, maxcache, gated_paths):
             elif ev['e'] == 'step':
                 if not sched.step(ev['p']):
                     mismatch = 'thread %d had already finished when the schedule stepped it (%s)' % (ev['p'], ev['k'])
-                    break
+                    if not gated_paths:
+                        break       # (steps inside Path.from_text are mechanism-level: go on)
             elif ev['e'] == 'end':
                 p = ev['p']
                 if not sched.done[p]:
                     mismatch = 'thread %d is still running where the model says its call has finished' % p
-                    break
+                    if not gated_paths:
+                        break
     finally:
         sched.drain()
     for p in range(1, nprocs + 1):
@@ -114,9 +116,14 @@ def _check_schedule(hist, pool, maxcache, gated, oracle, out):
     sched = [{k: v for k, v in ev.items() if k in ('e', 'p', 'c', 'k', 'r')} for ev in hist if ev['e'] != 'end']
     case = dict(kind='schedule', schedule=sched, maxcache=maxcache, gated_paths=gated, hist=hist, pool=pool)
     out['n'] += 1
-    if r['mismatch']:
+    if r['mismatch'] and not gated:
+        # the call made more / fewer user-callable invocations than the specification says
         out['bad'].append(dict(why='schedule mismatch: ' + r['mismatch'], case=case))
         return
+    if r['mismatch']:
+        # Path.from_text performs other dictionary operations than the transcribed ones: mechanism
+        # drift; the threads were still interleaved inside from_text and every outcome is judged
+        out['drift'] += 1
     for p, c in sorted(begins.items()):
         got, text, diff = r['obs'][p]
         call = pool[c - 1]
@@ -173,7 +180,7 @@ class Oracle20:
 
 def _sched_chunk(args):
     hists, pool, maxcache, gated = args
-    out = dict(n=0, calls=0, nontrivial=0, bad=[])
+    out = dict(n=0, calls=0, nontrivial=0, bad=[], drift=0)
     oracle = _CFG.setdefault('oracle', Oracle20())
     for h in hists:
         _check_schedule(h, pool, maxcache, gated, oracle, out)
@@ -198,7 +205,7 @@ def replay_config(check, label, consts, gated=False):
         raise vlib.MachineryError('no schedule printed for ' + label)
     n = vlib.NCPU * 4
     chunks = [(hists[i::n], pool, consts['MaxCache'], gated) for i in range(n) if hists[i::n]]
-    tot = dict(n=0, calls=0, nontrivial=0)
+    tot = dict(n=0, calls=0, nontrivial=0, drift=0)
     with mp.get_context('fork').Pool(vlib.NCPU) as p:
         for r in p.imap_unordered(_sched_chunk, chunks):
             for k in tot:
@@ -213,6 +220,8 @@ def replay_config(check, label, consts, gated=False):
                                                          for ev in h if ev['e'] != 'end'],
                       predicted={ev['p']: B.strip_pred(ev['out']) for ev in h if ev['e'] == 'end'}), limit=6)
     check.extra.setdefault('schedules_replayed', {})[label] = tot['n']
+    if tot['drift']:
+        check.extra.setdefault('mechanism_drift_schedules', {})[label] = tot['drift']
     return pool
 
 
@@ -223,7 +232,7 @@ def _free_session(calls, plan, maxcache, star, regs, seed):
     warnings.simplefilter('ignore')
     log = B.EventLog()
     B.install_logs(log)
-    glom.core.Path._MAX_CACHE = maxcache
+    B.set_max_cache(maxcache)
     if not star:
         glom.core.PATH_STAR = False
         log.add({'e': 'toggle'})
@@ -448,8 +457,13 @@ def _main(check, tier, seed):
     B.require_coverage(cov)
     check.extra['mechanism_coverage'] = cov
     # 4. boundary observation and spec mutants
-    check.extra['boundary_observation_register_during_lookup'] = in_child(_register_race)
-    check.extra['boundary_observation_toggle_during_from_text'] = in_child(_toggle_race)
+    check.extra['mechanism_unobservable'] = in_child(B.observability)
+    for key, fn in (('boundary_observation_register_during_lookup', _register_race),
+                    ('boundary_observation_toggle_during_from_text', _toggle_race)):
+        try:        # informational demonstrations that lean on the private shape of the caches
+            check.extra[key] = in_child(fn)
+        except vlib.MachineryError as e:
+            check.extra[key] = 'not reproducible on this glom: %s' % str(e).strip().splitlines()[-1][:200]
     if tier == 'thorough':
         mres = {}
         for m in MUTANTS:
@@ -494,7 +508,7 @@ def replay(path):
     case = v['case']
     print('why:', v['why'])
     if case.get('kind') == 'schedule':
-        out = dict(n=0, calls=0, nontrivial=0, bad=[])
+        out = dict(n=0, calls=0, nontrivial=0, bad=[], drift=0)
         _check_schedule(case['hist'], case['pool'], case['maxcache'], case['gated_paths'], Oracle20(), out)
         print('schedule:', json.dumps(case['schedule']))
         for b in out['bad']:
